@@ -53,6 +53,14 @@ def main(argv=None):
     a = ap.parse_args(argv)
 
     faulthandler.enable()
+    # address-space cap per shard: a run-away case (library or oracle) ends in MemoryError -> recorded, run inconclusive,
+    # instead of the kernel OOM killer taking the machine down
+    try:
+        import resource
+        cap = int(float(os.environ.get('VERIF_SHARD_MEM_GB', '6')) * 2 ** 30)
+        resource.setrlimit(resource.RLIMIT_AS, (cap, cap))
+    except Exception:
+        pass
     repo = os.path.abspath(a.repo)
     sys.path.insert(0, repo)
     sys.dont_write_bytecode = True
